@@ -55,6 +55,7 @@ impl<'a, W: AsyncWrite + Unpin> QueryCommandHandler<'a, W> {
             limit,
             offset,
             where_clause,
+            event_sequence,
             ..
         } = self.command
         else {
@@ -96,6 +97,34 @@ impl<'a, W: AsyncWrite + Unpin> QueryCommandHandler<'a, W> {
                 return self
                     .write_error(StatusCode::Unauthorized, "Authentication required")
                     .await;
+            }
+        }
+
+        // A sequence query (FOLLOWED BY / PRECEDED BY) also returns the events of the linked
+        // types: each of them needs read permission too.
+        if let (Some(auth_mgr), Some(uid), Some(seq)) =
+            (self.auth_manager, self.user_id, event_sequence.as_ref())
+        {
+            if uid != BYPASS_USER_ID {
+                for (_, target) in &seq.links {
+                    if !auth_mgr.can_read(uid, &target.event).await {
+                        warn!(
+                            target: "sneldb::query",
+                            user_id = uid,
+                            event_type = target.event.as_str(),
+                            "Read permission denied"
+                        );
+                        return self
+                            .write_error(
+                                StatusCode::Forbidden,
+                                &format!(
+                                    "Read permission denied for event type '{}'",
+                                    target.event
+                                ),
+                            )
+                            .await;
+                    }
+                }
             }
         }
 
